@@ -609,6 +609,28 @@ def partial_call_rule(repo, rep, funcs, what):
                          'the call raises LinAlgError where the product J Q J^T is defined' % (stmt_text(n)[:60], name, PARTIAL_LINALG[name], what), expected='matrix products only', actual=stmt_text(n)[:80])
 
 
+
+def receiver_rule(repo, rep, modname, method_names, what):
+    """a conversion / representation method returns a NEW object and leaves its receiver alone: converting twice, or converting after
+    another conversion, gives the same answer.  One instance per method: no store reaches the receiver's state (effect analysis of C09)."""
+    from ..purity import Purity
+    pur = Purity(repo, LIB_SCOPE)
+    m = repo.module(modname)
+    for cname, cls in sorted(m.classes.items()):
+        for q in method_names:
+            f = cls.methods.get(q)
+            if f is None:
+                continue
+            key = 'R-PURE::%s::%s::receiver' % (m.relpath, f.qualname)
+            ms = pur.mut_self.get(id(f))
+            if ms is None:
+                rep.holds('R-PURE', key, where(f, f.node), '%s does not modify the object it is called on' % f.qualname)
+            else:
+                site, path = ms
+                rep.violated('R-PURE', key, site.where, '%s modifies the object it is called on (%s): %s - a second conversion of the same object starts from the changed state' % (
+                    f.qualname, site.text[:80], what), expected='a new object, the receiver unchanged', actual=site.text[:120])
+
+
 def tm_division_rules(repo, rep):
     """division rule for the projection routines (geo2grid, grid2geo, psfandgridconv) over the band of the projection, equator and central
     meridian included"""
